@@ -186,6 +186,11 @@ func (c13) Gen(rng *rand.Rand, tier string, k int) *Case {
 	usedK := 0
 	used := map[string]bool{}
 	for i := 0; i < ns; i++ {
+		if rng.Intn(4) == 0 {
+			// any strategy of the catalogue, decorated or compound: one instance serves all assets
+			c.Subs = append(c.Subs, genStratSpec(rng, 1, false))
+			continue
+		}
 		e := c13Strats[rng.Intn(len(c13Strats))]
 		used[e] = true // the same strategy type may appear twice (differently configured, possibly under the same name)
 		s := SubSpec{Entity: e}
@@ -204,6 +209,21 @@ func (c13) Gen(rng *rand.Rand, tier string, k int) *Case {
 			c.Names = append(c.Names, a.Name)
 		}
 		rng.Shuffle(len(c.Names), func(i, j int) { c.Names[i], c.Names[j] = c.Names[j], c.Names[i] })
+		if len(c.Names) >= 2 && rng.Intn(3) == 0 {
+			// only some of the repository's assets are asked for - possibly only names it does not have
+			var some, absent []string
+			for _, a := range c.Assets {
+				if a.SrcAbsent {
+					absent = append(absent, a.Name)
+				}
+			}
+			if len(absent) > 0 && len(absent) < len(c.Assets) && rng.Intn(2) == 0 {
+				some = absent
+			} else {
+				some = c.Names[:1+rng.Intn(len(c.Names)-1)]
+			}
+			c.Names = append([]string{}, some...)
+		}
 	} else {
 		c.Mode = "from-repository"
 		c.Perm = rng.Perm(na)
